@@ -308,12 +308,18 @@ def main(argv):
             if f["sig"] in seen_sig:
                 continue
             seen_sig.add(f["sig"])
-            ok = 0
-            for attempt in range(3):
+            ok = passed = 0
+            for attempt in range(9):
+                inc0 = sum(ctx1.inconclusive.values())
                 rf = mod.replay(ctx1, f["case"])
                 if rf and not ctx1.is_known(rf[0]):
                     ok += 1
-            if ok == 3:
+                elif sum(ctx1.inconclusive.values()) == inc0:
+                    passed += 1           # a conclusive attempt that did not fail
+                # (an attempt that ended inconclusive - a timeout under load - counts neither way and is repeated)
+                if ok == 3 or passed:
+                    break
+            if ok == 3 and not passed:
                 path = write_replay(prop, f)
                 violations.append((f["sig"], path))
                 print("failure: sig=%s\n%s" % (f["sig"], f.get("detail", "")[:2500]))
